@@ -194,7 +194,7 @@ def system_cases(draw):
 
 class System(Facet):
     name = "system"
-    examples = {"quick": 800, "thorough": 12000}
+    examples = {"quick": 800, "thorough": 36000}
     shards = {"quick": 16, "thorough": 16}
 
     def strategy(self, tier):
@@ -224,7 +224,7 @@ class Sequence(Facet):
     another order), exported one after the other in the same process - as in a scenario loop."""
 
     name = "sequence"
-    examples = {"quick": 300, "thorough": 4000}
+    examples = {"quick": 300, "thorough": 12000}
     shards = {"quick": 16, "thorough": 16}
 
     def strategy(self, tier):
@@ -261,7 +261,7 @@ def run_definition(desc):
 
 class Definition(Facet):
     name = "definition"
-    examples = {"quick": 1500, "thorough": 20000}
+    examples = {"quick": 1500, "thorough": 60000}
     shards = {"quick": 8, "thorough": 16}
 
     def strategy(self, tier):
